@@ -388,4 +388,31 @@ def rule_borrowed_r4(ctx):
            "after a change - notify_logout raises KeyError and the slot is never returned", construct=f"key:User {special}")
 
 
-RULES = [rule_who, rule_finally, rule_pair, rule_manager, rule_timeout_ends, rule_borrowed_r4]
+def rule_counter(ctx):
+    p = ctx.p
+    ctx.rule("C10.COUNTER", "the counter object itself: locked() is `value == 0`; acquire() takes one and refuses to go below zero, release() gives one back and refuses to exceed "
+                            "the configured maximum (an unbalanced caller fails loudly instead of silently raising the limit)")
+    ms = p.methods("AvailableConnections")
+    lk = ms.get("locked")
+    rets = [r.value for r in walk_no_nested(lk) if isinstance(r, ast.Return) and r.value is not None] if lk is not None else []
+    ok = len(rets) == 1 and isinstance(rets[0], ast.Compare) and isinstance(rets[0].ops[0], ast.Eq) and {src(rets[0].left), src(rets[0].comparators[0])} == {"self.value", "0"}
+    ctx.ob("C10.COUNTER", lk if lk is not None else p.cls("AvailableConnections"), "locked() is self.value == 0", ok, "AvailableConnections.locked is not `self.value == 0`", construct="counter:locked")
+    for name, op, bound_ok in (("acquire", ast.Sub, lambda t: isinstance(t.ops[0], ast.Lt) and src(t.comparators[0]) == "0"),
+                               ("release", ast.Add, lambda t: isinstance(t.ops[0], ast.Gt) and src(t.comparators[0]) == "self.maximum_value")):
+        fn = ms.get(name)
+        if fn is None:
+            ctx.fail("C10.COUNTER", p.cls("AvailableConnections"), f"AvailableConnections.{name} missing", construct=f"counter:{name}:missing")
+            continue
+        steps = [n for n in walk_no_nested(fn) if isinstance(n, ast.AugAssign) and src(n.target) == "self.value" and isinstance(n.op, op) and isinstance(n.value, ast.Constant) and n.value.value == 1]
+        ctx.ob("C10.COUNTER", fn, f"{name}() moves the counter by exactly one", len(steps) == 1, f"AvailableConnections.{name} does not move the counter by exactly one", construct=f"counter:{name}:step")
+        raises = [r for r in walk_no_nested(fn) if isinstance(r, ast.Raise)]
+        ok = False
+        for r in raises:
+            for t, pol in all_guards(p, r, fn):
+                if pol and isinstance(t, ast.Compare) and len(t.ops) == 1 and src(t.left) == "self.value" and bound_ok(t):
+                    ok = True
+        ctx.ob("C10.COUNTER", fn, f"{name}() raises when the counter leaves its bounds", ok,
+               f"AvailableConnections.{name} no longer refuses to cross its bound: an unbalanced acquire/release silently moves the limit instead of failing", construct=f"counter:{name}:bound")
+
+
+RULES = [rule_who, rule_finally, rule_pair, rule_manager, rule_timeout_ends, rule_borrowed_r4, rule_counter]
